@@ -11,7 +11,7 @@ for f in d['findings']:
         continue
     sub = core.Ctx(pid, 'quick', 0, 0, 1)
     try:
-        mod.replay(sub, f['case'])
+        mod.replay(sub, core.unjson(f['case']))
     except Exception as e:
         print(f['id'], 'REPLAY-EXC', type(e).__name__, e)
         continue
